@@ -494,6 +494,9 @@ def pre_family():
         B('bind', ('and', ('and', B('bind', ('AX', V())), B('bind', ('and', ('EF', V()), V()))), V())),
     ]
 
+class _First:
+    def choose(self, n, tag=''): return 0
+
 def bind_family(ctx, sk, labels, prop):
     """name binders by depth and let every '?' refer to one of the enclosing binders (a choice)"""
     o = lambda s_: tuple(map(ord, s_))
@@ -669,8 +672,9 @@ def sc_c09_canon(ctx, p):
     t1 = bind_family(ctx, fam[i1], labels, prop)
     subs = all_subtrees(t1)
     if p.get('pair'):
-        i2 = ctx.choose(len(fam), 'tree2')
-        subs = subs + all_subtrees(bind_family(ctx, fam[i2], labels, prop))
+        sec = [0, 2, 5, 9, 11]
+        i2 = sec[ctx.choose(len(sec), 'tree2')]
+        subs = subs + all_subtrees(bind_family(_First(), fam[i2], labels, prop))      # second tree: default binding
     out = {'ok': True, 'group': i1}
     def fail(why, m, *asts):
         m = m or ctx.model()
